@@ -629,10 +629,19 @@ class C01(Check):
                     dv = np.array(ev["thrust_vector"], dtype=float)
                     if ev["thrust_frame"] == "ntw":
                         dv = kepler.ntw_to_eci_matrix(x) @ dv
+                    x_at = x.copy()
                     x = x.copy()
                     x[3:] += dv
                     x = kepler.propagate(x, k * step - T)
                     dp, dvv = float(np.linalg.norm(x[:3] - pred[:3])), float(np.linalg.norm(x[3:] - pred[3:]))
+                    # the filter predicts the weighted mean of propagated sigma points, which differs from the propagated mean by a second-order term
+                    # that grows with the covariance and the step (metres over an hour): beyond the absolute tolerance the question "exactly once?" is
+                    # decided relative to the size of the impulse's effect (distance between the references with the delta-v applied once and not at all)
+                    x0ref = kepler.propagate(x_at, k * step - T)
+                    eff_p, eff_v = float(np.linalg.norm(x[:3] - x0ref[:3])), float(np.linalg.norm(x[3:] - x0ref[3:]))
+                    if (over(dp, EST_POS_TOL) or over(dvv, EST_VEL_TOL)) and dp <= max(EST_POS_TOL, 0.05 * eff_p) and dvv <= max(EST_VEL_TOL, 0.05 * eff_v):
+                        cnt["planned_impulse_judged_relative_to_its_effect"] = cnt.get("planned_impulse_judged_relative_to_its_effect", 0) + 1
+                        continue
                     cnt["planned_impulse_predictions_judged"] = cnt.get("planned_impulse_predictions_judged", 0) + 1
                     t_p = res["tolerances"].get("estimate_pred_pos_km", [0.0, EST_POS_TOL])
                     res["tolerances"]["estimate_pred_pos_km"] = [max(t_p[0], dp), EST_POS_TOL]
